@@ -369,6 +369,7 @@ func (v *Verifier) verifyFuncOnce(fn *ssa.Function, ct *FuncContract, display st
 		paramCell: map[*ssa.Alloc]string{}, opaqueComps: map[string][]string{}, paramAlloc: map[*ssa.Alloc]string{},
 	}
 	fc.typeArgs = typeArgsOf(fn)
+	fc.rootFn = fn
 	fcOut = fc
 	defer func() {
 		if r := recover(); r != nil {
